@@ -4,6 +4,7 @@ import (
 	"go/ast"
 	"go/parser"
 	"go/token"
+	"os"
 	"path/filepath"
 	"sort"
 	"strings"
@@ -84,4 +85,44 @@ func leanStringList(l []string) string {
 		q[i] = "\"" + s + "\""
 	}
 	return "[" + strings.Join(q, ", ") + "]"
+}
+
+// stopCallSites lists the `p.command.Stop(sig, parentOnly)` calls of src/app/process.go:
+// (enclosing function, source text of the signal argument, source text of the parent-only argument).
+func stopCallSites(root string) ([][3]string, error) {
+	fset := token.NewFileSet()
+	file := filepath.Join(root, "src/app/process.go")
+	src, err := os.ReadFile(file)
+	if err != nil {
+		return nil, err
+	}
+	f, err := parser.ParseFile(fset, file, src, 0)
+	if err != nil {
+		return nil, err
+	}
+	text := func(e ast.Expr) string {
+		return strings.Join(strings.Fields(string(src[fset.Position(e.Pos()).Offset:fset.Position(e.End()).Offset])), " ")
+	}
+	var out [][3]string
+	for _, d := range f.Decls {
+		fd, ok := d.(*ast.FuncDecl)
+		if !ok || fd.Body == nil {
+			continue
+		}
+		ast.Inspect(fd.Body, func(n ast.Node) bool {
+			call, ok := n.(*ast.CallExpr)
+			if !ok || len(call.Args) != 2 {
+				return true
+			}
+			se, ok := call.Fun.(*ast.SelectorExpr)
+			if !ok || se.Sel.Name != "Stop" {
+				return true
+			}
+			if inner, ok := se.X.(*ast.SelectorExpr); ok && inner.Sel.Name == "command" {
+				out = append(out, [3]string{fd.Name.Name, text(call.Args[0]), text(call.Args[1])})
+			}
+			return true
+		})
+	}
+	return out, nil
 }
